@@ -20,8 +20,22 @@ META = {
             "heap; an activation keeps its closure's pointers; an assignment through any operand denoting a location is "
             "read back through every operand denoting it; two activations get different environments and a parameter "
             "lives in its own activation's environment; no CLOSURE, ENTER or assignment removes an environment or changes "
-            "which location a slot denotes, so a binding outlives the procedure that created it. The property itself is "
-            "checked on the implementation: every scope skeleton of two exhaustive families - (A) 1..4 nested procedures "
+            "which location a slot denotes, so a binding outlives the procedure that created it. (T02.4, refinement) For "
+            "EVERY program of the scope-skeleton language (any depth, any names), every specification fuel f and model fuel "
+            "g >= 2f: the model evaluator (Vm.EnvRun: variables resolved only through the compiler model's environment maps, "
+            "CLOSURE/ENTER environments and slot pointers) yields the same printed outcome of every top-level form and the "
+            "same printed read/write log as the definitional scope-chain interpreter (Spec.Scope: resolve = innermost "
+            "binding, one fresh location per bound name per activation, closures carry the chain of their creation, the "
+            "store never shrinks), unless the specification run stops with 'unbound' or runs out of fuel; proved by a "
+            "simulation relation (partial injection from specification locations to value slots, every frame of a chain the "
+            "image of ONE activation environment) kept by every evaluation step; (T02.2 second half) in that relation the "
+            "slot a compiled reference denotes - directly or through a LexicalEnvPtr - is slot i of the environment ENTER "
+            "created for the activation whose frame resolve stops at. The property itself is "
+            "checked on the implementation: every scope skeleton of three exhaustive families - (K) chains of 2..3 (thorough: 4) "
+            "procedures that return their inner closure x every subset of {a,b,c} bound at every level x 3 binder-kind "
+            "schemes x 4 assignment placements, where at every level of the chain the SAME closure is activated twice, both "
+            "returned closures are kept, and the first, the second and the first again are invoked (separate activations "
+            "get separate locations, also for procedures without formals whose only bindings are internal definitions); (A) 1..4 nested procedures "
             "x every subset of {a,b,c} bound at every level x 3 binder-kind schemes x {invoked inside, invoked twice, "
             "returned and invoked later and repeatedly, created in a loop} x {assignments before, after, both, neither "
             "side of closure creation}; (B) 1..3 nested procedures x every assignment of fixed parameter / rest parameter "
@@ -32,22 +46,45 @@ META = {
             "through the model's environment maps and slots; the real environment maps and the binding location of every "
             "compiled variable operand are compared with the model's; and after every session the real heap is scanned: "
             "every LexicalEnvPtr stored in a lexical environment points at a value slot of a lexical environment.",
-    "note": "Closed theorems, none partial: T02.1 (static_resolution, static_resolution_global, free_handed_down, "
+    "note": "Closed theorems: T02.1 (static_resolution, static_resolution_global, free_handed_down, "
             "chain_to_binder, resolveLevel_eq_resolveIdx), T02.2 as preservation (one_level_invariant), T02.3 "
             "(closures_share_location, activation_keeps_location, shared_location_write_read / load_after_store, "
-            "activations_separate, location_survives, store_evolves). NOT proved: that every state the evaluator "
-            "reaches is built from these operations only (true by inspection of Vm.EnvRun: it changes environments only "
-            "through buildClosureEnvironment / buildLexicalEnvironment / store), the second half of T02.2 (the pointed-to "
-            "environment is the binder's activation) and T02.4 (the model evaluator refines the specification "
-            "interpreter); these are carried by the correspondence only: specification interpreter, model evaluator and "
-            "real VM agree on every enumerated skeleton. The static model is over the scope-skeleton grammar, not over "
+            "activations_separate, location_survives, store_evolves); pointer_leads_to_binder_activation, "
+            "closure_pointer_leads_to_binder_activation, enter_establishes_relation (T02.2 second half, stated on the "
+            "simulation relation, i.e. for the states reached by runs covered by T02.4). PARTIAL: refinement_partial / "
+            "refinement_relation_partial (T02.4) - hypothesis: no top-level form of the SPECIFICATION run ends with 'unbound' "
+            "or 'fuel' (decidable: (Spec.Scope.run f p {}).1.any faulty = false); full language of skeletons (rest "
+            "parameters, internal definitions plain and sugared, begin, loops, each), any depth, any names, sessions of "
+            "several forms; model fuel g >= 2f because a begin is the call of a parameterless lambda. The exclusion of "
+            "'unbound' is necessary: refinement_fails_uninitialised (an internal definition read before its initialisation: "
+            "specification unbound, model and real VM #<undefined> without error) and refinement_fails_assign_undefined "
+            "(set! of an undefined global: specification unbound, model and real VM define it) are proved at concrete "
+            "programs; R7RS calls both 'an error', so neither is a violation of C02, and the generated families contain "
+            "neither. Also excluded with 'unbound', although the two agree there on every enumerated case: a plain "
+            "reference to an undefined global. Non-vacuity: demo (depth 3, shadowing, a counter shared by two closures of one "
+            "activation, two activations) satisfies the hypothesis, its specification log with locations and its model log "
+            "are evaluated in the kernel. lexical_scoping_partial bundles T02.4 with the four clauses of the property as they "
+            "hold in the specification interpreter (innermost binding wins: resolve_innermost/resolve_skip; closures created "
+            "in one activation carry that activation's chain and resolve a name they do not rebind to the same location; an "
+            "activation's frame consists of the next free locations; no step ever shortens the store: growsAll). Closed, no "
+            "hypothesis on the program: reachable_one_level / session_evolves (every state the model evaluator reaches from "
+            "the empty state, whatever errors occur, has one level of indirection and Evolves from every earlier state: "
+            "keepsAll, induction over all seven evaluator functions). NOT proved: the second half of T02.2 (pointer leads to "
+            "the BINDER's activation environment) for states reached by runs that T02.4 excludes. The model evaluator is "
+            "tied to the real VM by the correspondence: specification interpreter, model evaluator and real VM agree on "
+            "every enumerated skeleton. The static model is over the scope-skeleton grammar, not over "
             "arbitrary data; it is tied to the Rust analysis by comparing, for every lambda of every skeleton, the real "
             "environment map (each entry followed along its IofEnvironment links, by name) and the operand of every "
             "variable reference, and it is cross-checked on every case against the datum-level compiler model of C04 "
             "(Vm.Compile) run on the rendered program. Quasiquote is outside the grammar (find_free_symbols_in_proc "
             "skips it; defect 19, C01). Quick tier: family A depth 1-2 exhaustive, depth 3 one half, depth 4 one 16th; "
-            "family B depth 1 exhaustive, depth 2 one quarter, depth 3 one 32nd (shards rotate with the seed); 300 random. "
-            "Thorough tier: families A (224 640 skeletons) and B (864 + 46 656 + 157 464) completely, 15 000 random. "
+            "family B depth 1 exhaustive, depth 2 one quarter, depth 3 one 32nd, family K depth 2 exhaustive (768), depth 3 one "
+            "8th (shards rotate with the seed); 300 random. "
+            "Thorough tier: families A (224 640 skeletons), B (864 + 46 656 + 157 464) and K (768 + 6 144 + 49 152) "
+            "completely, 15 000 random. Family K was added after a seeded change (ENTER reusing the closure's environment "
+            "for procedures without formals, seeded/C02-2) went unnoticed by A, B and the random skeletons: none of them "
+            "kept the results of two activations of one closure and went back to the first; K flags it on 124 cases of the "
+            "quick tier. "
             "Sensitivity of the oracle, tried once in a scratch worktree: a VM whose CLOSURE captures by value instead of "
             "by pointer is flagged on 275 of 384 depth-2 skeletons, one whose new_from_iof takes the last instead of the "
             "first map entry for a name on 944 (runs) + 1056 (maps) of 2 x 3072 depth-3 cases. "
@@ -76,6 +113,27 @@ THEOREMS = [
     "Marwood.Proofs.C02.one_level_invariant",
     "Marwood.Proofs.C02.shared_location_write_read",
     "Marwood.Vm.Env.load_after_store",
+    "Marwood.Proofs.C02.refinement_partial",
+    "Marwood.Proofs.C02.refinement_relation_partial",
+    "Marwood.Proofs.C02.refinement_fails_uninitialised",
+    "Marwood.Proofs.C02.refinement_fails_assign_undefined",
+    "Marwood.Proofs.C02.demo_not_faulty",
+    "Marwood.Proofs.C02.pointer_leads_to_binder_activation",
+    "Marwood.Proofs.C02.closure_pointer_leads_to_binder_activation",
+    "Marwood.Proofs.C02.enter_establishes_relation",
+    "Marwood.Proofs.C02.lexical_scoping_partial",
+    "Marwood.Proofs.C02.reachable_one_level",
+    "Marwood.Proofs.C02.session_evolves",
+    "Marwood.Proofs.C02.spec_closure_carries_chain",
+    "Marwood.Proofs.C02.spec_closures_share_location",
+    "Marwood.Proofs.C02.spec_activation_gets_fresh_locations",
+    "Marwood.Proofs.C02.spec_store_never_shrinks",
+    "Marwood.Vm.EnvRefine.keepsAll",
+    "Marwood.Vm.EnvRefine.growsAll",
+    "Marwood.Vm.EnvRefine.sims",
+    "Marwood.Vm.EnvRefine.sim_run",
+    "Marwood.Vm.EnvRefine.sim_enter",
+    "Marwood.Vm.EnvRefine.sim_mkClosure",
 ]
 
 PAR = 6
@@ -123,6 +181,8 @@ def streams(ctx):
                 ("kinds-depth1", shards(["kexh", 1, 16], 1), True),
                 ("kinds-depth2-shard%dof4" % (s % 4), shards(["kexh", 2, 16], 8, [s % 4, s % 4 + 4]), False),
                 ("kinds-depth3-shard%dof32" % (s % 32), shards(["kexh", 3, 1], 32, [s % 32]), False),
+                ("keep-depth2", shards(["keep", 2], 2), True),
+                ("keep-depth3-shard%dof8" % (s % 8), shards(["keep", 3], 8, [s % 8]), False),
                 ("random-deeper", [["rand", 300, "both", 0]], None)]
         flat = [a for _, al, _ in plan for a in al]
         runs = []
@@ -140,6 +200,9 @@ def streams(ctx):
                 ("kinds-depth1", shards(["kexh", 1, 16], 1), True),
                 ("kinds-depth2", shards(["kexh", 2, 16], 12), True),
                 ("kinds-depth3", shards(["kexh", 3, 1], 36), True),
+                ("keep-depth2", shards(["keep", 2], 2), True),
+                ("keep-depth3", shards(["keep", 3], 6), True),
+                ("keep-depth4", shards(["keep", 4], 24), True),
                 ("random-deeper", [["rand", 2500, "both", j] for j in range(6)], None)]
         # generation of the next batch overlaps with checking the previous one
         work = [(label, b, exh) for label, al, exh in plan for b in batches(al)]
@@ -161,7 +224,9 @@ def run(ctx):
              "top-level forms and the full (site=value) log, real VM vs Lean model evaluator (environment maps + slots) vs "
              "definitional scope-chain interpreter; (envmap-*) for every lambda the real compiler produced: formals, "
              "environment map with each entry followed along its IofEnvironment links to its Argument/InternalDefinition "
-             "end, and the binding of every variable operand in code order, vs the model. Streams marked exhaustive "
+             "end, and the binding of every variable operand in code order, vs the model. keep-* streams: chains of "
+             "returned closures where every closure of the chain is activated twice, both results are kept and the first, "
+             "the second and the first again are invoked. Streams marked exhaustive "
              "cover their whole depth; (real-heap-one-level-*) the heap scan after each session, expected 'ok'; non-trivial = "
              "error-free run (oracle) / some variable captured from an enclosing lambda (envmap); distinct by program",
         trusted_extra=["helper procedures tick/rd/wr/times/each of the probe sessions are ordinary Scheme run by the VM "
